@@ -286,6 +286,24 @@ def _eval_lbp(case):
     if len(h) != _necklaces(P):
         findings.append(dict(kind='property', key='lbp:one-bin-per-rotation-class', detail=dict(bins=len(h), classes=_necklaces(P))))
     cl = [int(c) for c in codes]
+    # the code of every considered pixel equals its definition: bit k is set iff the k-th sample on the circle (linear
+    # interpolation, as mahotas.interpolate.shift(order=1) evaluates it - property C18) is brighter than the centre;
+    # the bits are assembled here in unbounded Python integers and reduced to the rotation-class representative
+    from mahotas.interpolate import shift as _shift
+    angles = np.linspace(0, 2 * np.pi, P + 1)[:-1]
+    sel = (lambda a: a[np.nonzero(im)].ravel()) if iz else np.ravel
+    centre = sel(im)
+    want = [0] * len(centre)
+    with warnings.catch_warnings():
+        warnings.simplefilter('ignore')
+        for k, (dy, dx) in enumerate(zip(np.sin(angles), np.cos(angles))):
+            bits = sel(_shift(im, [R * dy, R * dx], order=1)) > centre
+            for j in np.nonzero(bits)[0].tolist():
+                want[j] |= (1 << k)
+    want = [_orbit_min(c, P) for c in want]
+    if len(want) == len(cl) and want != cl:
+        j = next(i for i, (a, b) in enumerate(zip(cl, want)) if a != b)
+        findings.append(dict(kind='property', key='lbp:code-not-the-defined-pattern', detail=dict(P=P, pixel=j, got=cl[j], want=want[j])))
     if any(_orbit_min(c, P) != c for c in cl):
         findings.append(dict(kind='property', key='lbp:codes-not-class-representatives', detail=dict(P=P)))
     if not findings:
@@ -567,7 +585,7 @@ def cases(rng, tier):
         n = shape[0] * shape[1]
         data = [float(rng.choice([0, 0, rng.randint(0, 9), rng.randint(0, 255)])) if dtype != 'float64' or rng.random() < 0.3
                 else rng.choice([0.0, rng.random(), rng.uniform(0, 100)]) for _ in range(n)]
-        out.append(dict(kind='lbp', shape=shape, dtype=dtype, data=data, p=rng.choice([1, 2, 3, 4, 5, 6, 8, 8, 10, 12]),
+        out.append(dict(kind='lbp', shape=shape, dtype=dtype, data=data, p=rng.choice([1, 2, 3, 4, 5, 6, 8, 8, 10, 12, 15, 16, 16, 17, 20]),
                         radius=rng.choice([1, 2, 1.5, 3, 0.5, 2.5]), iz=rng.choice([0, 0, 1])))
     # --- Zernike
     for _ in range(60 * N):
